@@ -77,4 +77,30 @@ def reportedAll (e : Expr) (m : LinkMode) (scan : Scan) : State â†’ List Bytes â
   | _, [] => []
   | st, f :: fs => reported e m scan st f :: reportedAll e m scan (stateAfter e m scan st f) fs
 
+/-! ### the capture length
+
+The socket filter runs on the whole frame as it arrived; its return value is the number of bytes the kernel copies
+into the ring (`tp_snaplen = min(frame length, return value)`), and `afpacket.TPacket.ZeroCopyReadPacketData`
+hands the processor exactly those bytes.  sx compiles its filters with `maxPacketLength` as that value. -/
+
+/-- what the socket delivers of an accepted frame when the program returns `n` -/
+def captured (n : Nat) (f : Bytes) : Bytes := f.take n
+
+/-- `reported` with the capture length: the filter sees `f`, the processor sees `captured n f` -/
+def reportedSnap (e : Expr) (m : LinkMode) (n : Nat) (scan : Scan) (st : State) (f : Bytes) : Option Record :=
+  if accepts e m f then
+    match (process scan st (captured n f)).2 with
+    | .record r => some r
+    | _ => none
+  else none
+
+def stateAfterSnap (e : Expr) (m : LinkMode) (n : Nat) (scan : Scan) (st : State) (f : Bytes) : State :=
+  if accepts e m f then (process scan st (captured n f)).1 else st
+
+/-- a whole capture, each accepted frame cut to the capture length -/
+def reportedAllSnap (e : Expr) (m : LinkMode) (n : Nat) (scan : Scan) : State â†’ List Bytes â†’ List (Option Record)
+  | _, [] => []
+  | st, f :: fs =>
+    reportedSnap e m n scan st f :: reportedAllSnap e m n scan (stateAfterSnap e m n scan st f) fs
+
 end SxVerif.Wiring
